@@ -478,6 +478,7 @@ type LoopSpec struct {
 	Invariants []*Clause
 	Iter       []*Clause // "iter ensures": per-iteration postconditions (old = loop head)
 	SelectOnly bool      // "blocks only in select": no receive statement outside the comm clauses of the loop's selects
+	Offers     []string  // "offers <-expr": every select of the loop has a comm clause receiving from exactly this channel expression
 	Cancels    string    // "cancels ctx": the loop is a goroutine's message loop that must stop when ctx is cancelled
 	Exit       []*Clause // "exit ensures": holds on every way out of the loop other than return (exhaustion, break)
 	Decreases  *Clause
@@ -581,7 +582,7 @@ type SpecFile struct {
 
 var clauseKeywords = map[string]bool{
 	"requires": true, "ensures": true, "modifies": true, "invariant": true, "loop": true,
-	"iter": true, "exit": true, "cancels": true, "blocks": true, "closureinv": true, "decreases": true, "emits": true, "recvinv": true, "flag": true, "use": true, "prop": true, "induction": true, "pattern": true, "defensive": true, "assert": true,
+	"iter": true, "exit": true, "cancels": true, "blocks": true, "closureinv": true, "decreases": true, "emits": true, "recvinv": true, "flag": true, "use": true, "prop": true, "induction": true, "pattern": true, "defensive": true, "assert": true, "offers": true,
 	"field": true, "assumed": true, "pure": true, "end": true,
 }
 var headerKeywords = map[string]bool{"func": true, "type": true, "spec": true, "lemma": true, "ghost": true, "axiom": true, "package": true}
@@ -835,6 +836,12 @@ func parseSpecText(path, pkgPath string, lines []string, lineNos []int) (*SpecFi
 				return nil, fmt.Errorf("%s:%d: blocks outside loop", path, it.line)
 			}
 			curLoop.SelectOnly = true
+		case "offers":
+			// offers <-<channel expression>: every select the loop blocks in keeps taking from that channel
+			if curLoop == nil {
+				return nil, fmt.Errorf("%s:%d: offers outside loop", path, it.line)
+			}
+			curLoop.Offers = append(curLoop.Offers, strings.Join(strings.Fields(strings.TrimPrefix(strings.TrimSpace(rest), "<-")), " "))
 		case "cancels":
 			if curLoop == nil {
 				return nil, fmt.Errorf("%s:%d: cancels outside loop", path, it.line)
